@@ -268,6 +268,16 @@ def run(sim, plan):
             classes.add("multi_frame_segment")
         if gap:
             sim.advance(gap)
+            if gap >= 0.3:
+                # R5 (bounded liveness): at this quiescent point every frame that has completely arrived is delivered;
+                # a message that is only delivered when later traffic arrives is lost if none follows
+                complete = sum(1 for (a, b_), fr in zip(bounds, frames) if b_ <= end and fr.stype == 0)
+                if len(ep.received) < complete:
+                    sim.probe("r5_checked")
+                    sim.violation("C04.R5", f"{complete} data frames have completely arrived and the link was quiet for "
+                                  f"{gap} virtual s, but only {len(ep.received)} were delivered (delivery stalled until "
+                                  "further traffic arrives)", sig="C04.R5|delivery-stalled")
+                sim.probe("r5_checked")
         elif steps:
             sim.run_others(steps, max_dt=0.5)
     if pos < len(stream):
